@@ -18,7 +18,7 @@ def vmatch(v, r):
 def vstr(v):
     if v[0] == 'either':
         return '|'.join(vstr(x) for x in v[1:])
-    return v[0] + (':%d' % v[1] if len(v) > 1 else '')
+    return v[0] + (':%s' % (v[1],) if len(v) > 1 else '')
 
 
 class C06(Monitor):
